@@ -21,7 +21,8 @@ def accepts (j : Json) : Except String Json := do
 def updateConfOp (j : Json) : Except String Json := do
   let d ← field j "default" >>= dictOfJson
   let u ← field j "user" >>= dictOfJson
-  return resToJson (fun r => jvalToJson (.obj r)) (updateConf d u)
+  let fl ← flagsOfJson (fieldD j "flags" (mkObj []))
+  return resToJson (fun r => jvalToJson (.obj r)) (updateConf fl.mergeOnlyDicts d u)
 
 /-- what the documentation says of each key of a step configuration given directly to the class
     (no `update_conf` rewrite happens at that level); a multiscale step refuses disparity grids -/
